@@ -98,6 +98,10 @@ def _val(v):
                 k = len(v) - len(v[1:].lstrip("a"))
                 if k >= 50:
                     return "#%d:%s" % (len(v), v[k:])
+            if v[0] == "&":
+                k = len(v) - len(v[1:].lstrip("a"))
+                if k >= 50:
+                    return "&%d:%s" % (len(v), v[k:])
         return v
     return "<%s>%r" % (type(v).__name__, v)
 
@@ -385,6 +389,9 @@ def expand(nm):
     if isinstance(nm, str) and nm.startswith("#") and ":" in nm:      # as @ but starting with a digit
         n, c = nm[1:].split(":", 1)
         return "1" + "a" * (int(n) - len(c) - 1) + c
+    if isinstance(nm, str) and nm.startswith("&") and ":" in nm and nm[1:].split(":", 1)[0].isdigit():   # as @ but starting with &
+        n, c = nm[1:].split(":", 1)
+        return "&" + "a" * (int(n) - len(c) - 1) + c
     return nm
 
 
@@ -516,7 +523,7 @@ def _do(reg, c):
                     first["original_identifier"] = "P.x"
                 e[KEYMAP["props"]] = [first, {"identifier": "q", "value": "w"}]
             else:
-                e[KEYMAP[c["key"]]] = c["val"]
+                e[KEYMAP[c["key"]]] = expand(c["val"]) if c["key"] == "eid" else c["val"]
         elif op == "del_item":
             del e[KEYMAP[c["key"]]]
         elif op == "pop_item":
